@@ -352,7 +352,10 @@ pub fn run(tier: &str) -> i32 {
                         rep.count(&format!("permitted rejection ({kind})"));
                         continue;
                     }
-                    let first = errs.iter().find(|(c, m)| !(c == "E0080" && m.contains("does not match WGSL"))).unwrap_or(&errs[0]);
+                    // headline = the first error that is not one of the permitted bytemuck rejections (when a bytemuck switch is
+                    // on, Pod's padding check and the layout assertions may accompany the error that matters)
+                    let permitted = |c: &str, m: &str| (c == "E0080" && (m.contains("does not match WGSL") || (derives_pod && m.contains("derive(Pod)")))) || (derives_pod && c == "E0512");
+                    let first = errs.iter().find(|(c, m)| !permitted(c, m)).unwrap_or(&errs[0]);
                     let sig = format!("rustc {} {}", first.0, first.1.chars().take(70).collect::<String>());
                     rep.outcomes.insert(sig.clone());
                     rep.violation(
